@@ -123,8 +123,36 @@ def imported_abs_hides_host_proc():
     return {"units": [lib, m], "submodules": []}
 
 
+def special_named_modules(lib="mpi", other="extlib"):
+    """project modules named like an intrinsic module (settings.INTRINSIC_MODS) / an `extra_mods` entry:
+    module <lib>: type t, subroutine helper, abstract interface cb.  module <other>: use <lib> (re-export),
+    type u.  module m has its own t, helper, cb; its subroutine a uses <lib> (its names hide the module's),
+    subroutine b uses <other> with ONLY and a rename, the internal procedure c of b uses
+    `use, non_intrinsic :: <lib>, tl => t`; the program uses <other>.  Every USE must bind to the project's
+    module: the references are to <lib>'s entities, not to m's and not plain text"""
+    L = sc(lib, "module", types=[ty("t")], procs=[sc("helper", "subroutine")], absints=[sc("cb", "absbody")])
+    O = sc(other, "module", uses=[{"target": lib, "only": None, "renames": [], "prefix": ""}], types=[ty("u")])
+    a = sc("a", "subroutine", uses=[{"target": lib.upper(), "only": None, "renames": [], "prefix": "::"}],
+           vars=[var("a1", "type", "t"), var("a2", "proc", "helper"), var("a3", "proc", "cb")])
+    c = sc("c", "subroutine", uses=[{"target": lib, "only": None, "renames": [["tl", "t"]], "prefix": "non_intrinsic"}],
+           vars=[var("c1", "type", "tl"), var("c2", "type", "t"), var("c3", "proc", "helper")])
+    b = sc("b", "subroutine", uses=[{"target": other, "only": [["t", "t"], ["hl", "helper"], ["u", "u"]], "renames": [],
+                                     "prefix": "non_intrinsic"}],
+           vars=[var("b1", "type", "t"), var("b2", "proc", "hl"), var("b3", "type", "u"), var("b4", "proc", "helper")],
+           procs=[c])
+    m = sc("m", "module", types=[ty("t")], procs=[sc("helper", "subroutine"), a, b], absints=[sc("cb", "absbody")],
+           vars=[var("m1", "type", "t")])
+    main = sc("main", "program", uses=[{"target": other, "only": None, "renames": [], "prefix": ""},
+                                       {"target": "iso_c_binding", "only": None, "renames": [], "prefix": "intrinsic"}],
+              vars=[var("p1", "type", "t"), var("p2", "type", "u"), var("p3", "proc", "helper"), var("p4", "proc", "cb")])
+    return {"units": [L, O, m, main], "submodules": []}
+
+
 def fixed_programs():
-    out = [("witness:proc_shadow", witness_proc_shadow()), ("witness:sibling_leak", witness_sibling_leak()),
+    out = [("fixed:special:mpi+extlib", special_named_modules("mpi", "extlib")),
+           ("fixed:special:iso_fortran_env+omp_lib", special_named_modules("iso_fortran_env", "omp_lib")),
+           ("fixed:special:netcdf+ieee_arithmetic", special_named_modules("netcdf", "ieee_arithmetic")),
+           ("witness:proc_shadow", witness_proc_shadow()), ("witness:sibling_leak", witness_sibling_leak()),
            ("witness:abs_over_proc", witness_abs_over_proc()), ("witness:sub_shadow", witness_sub_shadow()),
            ("fixed:abs_hides_binding_target", abs_hides_binding_target()),
            ("fixed:imported_abs_hides_host_proc", imported_abs_hides_host_proc()),
@@ -249,12 +277,20 @@ class Runner:
 
 def distribution(units):
     d = {"unit_kinds": {}, "scopes_by_depth": {}, "scope_kinds": {}, "uses": 0, "types": 0, "bindings": 0, "finals": 0,
-         "generics": 0, "references": 0, "names_declared_in_several_scopes_of_a_unit": 0}
+         "generics": 0, "references": 0, "names_declared_in_several_scopes_of_a_unit": 0, "use_forms": {},
+         "modules_named_like_intrinsic_or_extra_mods": 0}
+    special = {u["name"].lower() for u in units if u["kind"] == "module" and u["name"].lower() in G.SPECIAL_NAMES}
 
     def walk(s, depth, names):
         d["scopes_by_depth"][depth] = d["scopes_by_depth"].get(depth, 0) + 1
         d["scope_kinds"][s["kind"]] = d["scope_kinds"].get(s["kind"], 0) + 1
         d["uses"] += len(s["uses"])
+        for x in s["uses"]:
+            form = ("only+rename" if any(l != r for l, r in x["only"]) else "only") if x["only"] is not None else (
+                "rename" if x.get("renames") else "plain")
+            for f in (form, "prefix:" + (x.get("prefix") or "none")) + (
+                    ("of-a-project-module-named-like-intrinsic-or-extra_mods",) if x["target"].lower() in special else ()):
+                d["use_forms"][f] = d["use_forms"].get(f, 0) + 1
         d["types"] += len(s["types"])
         d["generics"] += len(s["generics"])
         for t in s["types"]:
@@ -270,6 +306,7 @@ def distribution(units):
             walk(c, depth + 1, names)
     for u in units:
         d["unit_kinds"][u["kind"]] = d["unit_kinds"].get(u["kind"], 0) + 1
+        d["modules_named_like_intrinsic_or_extra_mods"] += u["kind"] == "module" and u["name"].lower() in G.SPECIAL_NAMES
         names = {}
         walk(u, 0, names)
         d["names_declared_in_several_scopes_of_a_unit"] += sum(1 for v in names.values() if v > 1)
